@@ -162,6 +162,8 @@ def _str(eng, st, args, kwargs, node):
 		yield st, v
 	elif isinstance(v, int):
 		yield st, str(v)
+	elif isinstance(v, SInt):
+		yield st, SStr(z3.IntToStr(v.term))      # decimal representation (non-negative integers)
 	else:
 		h = eng.lib.get('str:' + type(st.deref(v)).__name__)
 		if h is None:
@@ -272,6 +274,8 @@ def value_kind(st, v):
 		return ('tuple',)
 	if isinstance(v, SObj):
 		return ('obj', v.T.name)
+	if isinstance(v, SRec):
+		return ('record', v.T.pyclass)
 	if v is None:
 		return ('none',)
 	if isinstance(v, (float, SReal)):
